@@ -67,6 +67,18 @@ func fixtureTypes() []*engs.Type {
 			engs.Struct("S1", "local", f("A", engs.Map(b("int"), engs.Ptr(nm())))),
 			engs.Slice(engs.Ptr(nm())), engs.Map(b("int"), engs.Ptr(nm())), engs.Ptr(engs.Ptr(nm())), engs.Array(engs.Ptr(nm())))
 	}
+	// maps whose values are ARRAYS of non-copyable elements: the map branch of deepcopy copies such a
+	// value through a scratch array; scratch state surviving from one entry to the next (slices whose
+	// capacity is re-used) makes the entries of the copy share backing arrays. The base value has two
+	// entries whose inner slices have equal lengths and different contents. Pointer / map elements: controls.
+	mapArr := func(key string, el *engs.Type) *engs.Type { return engs.Map(b(key), engs.Array(el)) }
+	out = append(out,
+		mapArr("string", engs.Slice(b("int"))), mapArr("int", engs.Slice(b("string"))),
+		engs.Struct("S1", "local", f("A", mapArr("string", engs.Slice(b("int"))))),
+		engs.Struct("S1", "ext", f("a", mapArr("int", engs.Slice(b("int"))))),
+		engs.Ptr(mapArr("string", engs.Slice(b("int")))), engs.Slice(mapArr("string", engs.Slice(b("int")))),
+		mapArr("string", engs.Ptr(b("int"))), mapArr("string", engs.Map(b("string"), b("int"))),
+		mapArr("int", engs.Slice(engs.Slice(b("int")))))
 	return out
 }
 
